@@ -1,7 +1,7 @@
 (* C13 correspondence: how one observed run of the Go code (harness/go/c13) is compared with the
    model, with H := the Gallina BLAKE2b-256 of lib/Blake2b.v.  Used by the generated
    run/C13/cases_*.v files.  Not part of any theorem. *)
-From Hy Require Import lib.Harness lib.Blake2b model.C13_Salamander.
+From Hy Require Import lib.Harness lib.Blake2b model.C13_Salamander model.C13_Lock.
 From Coq Require Import ZArith.
 Local Open Scope N_scope.
 
@@ -38,25 +38,42 @@ Inductive case :=
 | CKey (psk : bsrc) (refused : bool)
 | CObf (psk : bsrc) (salt : list byte) (inp : bsrc) (outcap : nat) (n : nat) (out : bobs)
 | CDeobf (psk : bsrc) (inp : bsrc) (outcap : nat) (n : nat) (out : bobs)
-| CStream (psk : bsrc) (plen : nat) (items : list item) (ws : list wobs) (rs : list robs).
+| CStream (psk : bsrc) (plen : nat) (items : list item) (ws : list wobs) (rs : list robs)
+          (lkw lkr : list bool).
+  (* lkw: per WriteTo that returned, was the writing wrapper's writeMutex found held afterwards;
+     lkr: per ReadFrom that returned, was the reading wrapper's readMutex found held afterwards *)
 
-(* model side of the writes: events delivered to the reader and write results, in order *)
-Fixpoint run_items (psk : list byte) (its : list item)
-  : option (list uev * list (list byte * nat * option N)) :=
+(* model side of the writes: events delivered to the reader, write results and the writing
+   wrapper's writeMutex after each call, in order; the calls run through the lock model
+   (model/C13_Lock.v write_to_lk) from the lock state l.  A Stuck call delivers nothing and has no
+   observation to be compared with: None *)
+Fixpoint run_items (psk : list byte) (its : list item) (l : locks)
+  : option (list uev * list (list byte * nat * option N) * list bool) :=
   match its with
-  | [] => Some ([], [])
+  | [] => Some ([], [], [])
   | IW p salt addr uerr :: t =>
-      match write_to Hm psk salt (bytes_of p) uerr, run_items psk t with
-      | Ok (wire, n, e), Some (evs, wr) =>
-          Some (match uerr with None => mkEv wire addr None :: evs | Some _ => evs end,
-                (wire, n, e) :: wr)
-      | _, _ => None
+      match write_to_lk Hm psk salt (bytes_of p) uerr l with
+      | Ok (RetW wire n e, l') =>
+          match run_items psk t l' with
+          | Some (evs, wr, lk) =>
+              Some (match uerr with None => mkEv wire addr None :: evs | Some _ => evs end,
+                    (wire, n, e) :: wr, wr_held l' :: lk)
+          | None => None
+          end
+      | _ => None
       end
   | IRaw d addr err :: t =>
-      match run_items psk t with
-      | Some (evs, wr) => Some (mkEv (bytes_of d) addr err :: evs, wr)
+      match run_items psk t l with
+      | Some (evs, wr, lk) => Some (mkEv (bytes_of d) addr err :: evs, wr, lk)
       | None => None
       end
+  end.
+
+Fixpoint bools_eqb (a b : list bool) : bool :=
+  match a, b with
+  | [], [] => true
+  | x :: a', y :: b' => Bool.eqb x y && bools_eqb a' b'
+  | _, _ => false
   end.
 
 Definition w_ok (p : wobs * (list byte * nat * option N)) : bool :=
@@ -86,13 +103,15 @@ Definition check (c : case) : bool :=
       | Ok (m, o) => Nat.eqb n m && obs_ok out o
       | _ => false
       end
-  | CStream psk plen items ws rs =>
-      match run_items (bytes_of psk) items with
+  | CStream psk plen items ws rs lkw lkr =>
+      match run_items (bytes_of psk) items (mkL false false) with
       | None => false
-      | Some (evs, wr) =>
-          Nat.eqb (length ws) (length wr) && forallb w_ok (combine ws wr) &&
+      | Some (evs, wr, lk) =>
+          Nat.eqb (length ws) (length wr) && forallb w_ok (combine ws wr) && bools_eqb lkw lk &&
           match read_seq Hm (bytes_of psk) (repeat plen (S (length evs))) evs with
-          | Ok res => Nat.eqb (length rs) (length res) && forallb r_ok (combine rs res)
+          | Ok res => Nat.eqb (length rs) (length res) && forallb r_ok (combine rs res) &&
+                      (* every iteration of the reading wrapper releases readMutex (read_iter_lk; C13_locks_released) *)
+                      bools_eqb lkr (map (fun _ => false) res)
           | _ => false
           end
       end
